@@ -211,6 +211,13 @@ pub fn battery(m: &SchemaModel, rng: &mut Rng) -> Vec<(&'static str, String, Arg
         let mut names: Vec<FieldValue> = others.iter().map(|n| FieldValue::String(n.as_str().into())).collect();
         names.push(FieldValue::String(m.root.as_str().into()));
         names.push(FieldValue::String("NoSuchType".into()));
+        // a name listed twice selects that type once: a filter keeps or drops rows, it never multiplies them
+        if let Some(first) = others.first() {
+            names.push(FieldValue::String(first.as_str().into()));
+            if rng.chance(50) {
+                names.insert(0, FieldValue::String(first.as_str().into()));
+            }
+        }
         let mut args = Args::new();
         args.insert("ns".into(), FieldValue::List(names.into()));
         out.push((
